@@ -19,7 +19,7 @@ def gen(rng, tier):
         names = sorted(NAMES[i % len(NAMES)][:n])       # every name style is used, with >= 3 vertices at least once
         edges = [[a, b, rng.choice([1, 1, 2, 13])] for a in range(n) for b in range(a + 1, n) if rng.random() < 0.6 or names[a].lower() == names[b].lower()]
         G = {"n": n, "names": names, "edges": edges}; kind = KINDS[i % 4]
-        D = [rng.choice([0, 1, -1, 5, -12, 2 ** 70, -2 ** 64]) for _ in range(n)]
+        D = [rng.choice([0, 1, -1, 5, -12, 2 ** 70, -2 ** 64, 2 ** 53 + 1, 10 ** 18 + 1, -(2 ** 64 - 1), 10 ** 23 + 7]) for _ in range(n)]     # incl. integers no double represents
         ori = [[a, b] if rng.random() < 0.5 else [b, a] for a, b, _ in edges if rng.random() < 0.7]
         out.append({"G": G, "kind": kind, "D": D, "ori": ori, "s": rng.randrange(1 << 30), "per_pos": 3 if tier == "quick" else 12})
     return out
